@@ -904,7 +904,11 @@ def run_faults(payload: Tuple[Any, ...]) -> Dict[str, Any]:
                 continue
             ctx.restore_s3(cfg, dict(C_STORE))
             s3 = ctx.worlds[cfg].s3
-            want = call(ctx.S[cfg])
+            try:
+                want = call(ctx.S[cfg])
+            except Exception as e:  # noqa - already reported above as fault_free_operation_failed
+                rep.add("body_fault_cases_skipped_fault_free_call_failed")
+                continue
             for k in range(1, budget + 1):
                 left = [k]
 
